@@ -17,6 +17,11 @@ pub enum WOp {
     /// one `Write::write` call with n bytes
     Write { n: usize, seed: u64 },
     WriteAll { n: usize, seed: u64 },
+    /// write_all of n bytes (inside one page) whose last four bytes are solved so that the page,
+    /// as it is flushed next, has a special checksum: that of the page's previous version (the
+    /// content changes, the checksum does not), or - for a page that holds nothing yet - 0
+    /// (`alt`: 0xFFFFFFFF). Falls back to plain data where the write does not fit one page.
+    WriteSolved { n: usize, seed: u64, alt: bool },
     Seek { p: u64 },
     /// seek to (physical end + d) computed at execution time
     SeekEnd { d: i64 },
@@ -233,6 +238,7 @@ pub fn run_case(case: &Case, st: &mut RunStats) -> Outcome<Case> {
     let mut crossed = false;
     let mut seek_back = false;
     let mut rejected = 0u64;
+    let mut solved_writes = 0u64;
     {
         let mut w = match PagedWriter::new(disk.clone()) {
             Ok(w) => w,
@@ -257,6 +263,33 @@ pub fn run_case(case: &Case, st: &mut RunStats) -> Outcome<Case> {
                 }
                 WOp::WriteAll { n, seed } => {
                     let buf = content(*n, *seed);
+                    if let Err(e) = w.write_all(&buf) {
+                        return Outcome::fail("write-err", format!("{when}: failed on a fault-free device: {e}"));
+                    }
+                    model.put(&buf);
+                }
+                WOp::WriteSolved { n, seed, alt } => {
+                    let mut buf = content(*n, *seed | 1);
+                    let off = (model.cur % PAYLOAD) as usize;
+                    if *n >= 4 && off + *n <= PAYLOAD as usize {
+                        let lo = (model.cur - off as u64) as usize;
+                        let mut page = vec![0u8; PAYLOAD as usize];
+                        let have = model.data.len().saturating_sub(lo).min(PAYLOAD as usize);
+                        page[..have].copy_from_slice(&model.data[lo..lo + have]);
+                        let fresh = have == 0;
+                        let before = crc32c(&page);
+                        page[off..off + *n].copy_from_slice(&buf);
+                        let target = match (fresh, *alt) {
+                            (true, false) => 0,
+                            (true, true) => u32::MAX,
+                            (false, false) => before,
+                            (false, true) => !before,
+                        };
+                        if crate::refcodec::page::solve_crc32c(&mut page, off + *n - 4, target).is_some() {
+                            buf.copy_from_slice(&page[off..off + *n]);
+                            solved_writes += 1;
+                        }
+                    }
                     if let Err(e) = w.write_all(&buf) {
                         return Outcome::fail("write-err", format!("{when}: failed on a fault-free device: {e}"));
                     }
@@ -355,6 +388,8 @@ pub fn run_case(case: &Case, st: &mut RunStats) -> Outcome<Case> {
     st.count("rejected_seeks", rejected);
     st.probe("page_boundary_crossed", crossed);
     st.probe("seek_back_patch", seek_back);
+    st.count("writes_with_solved_page_checksum", solved_writes);
+    st.probe("single_write_of_64_pages_or_more", case.wops.iter().any(|o| matches!(o, WOp::Write { n, .. } | WOp::WriteAll { n, .. } if *n >= 65_280)));
     st.probe("rejected_seek_then_more_ops", rejected > 0);
     st.probe("short_device_transfers_writer", disk.short_transfers() > 0);
 
@@ -469,6 +504,7 @@ pub fn run_case(case: &Case, st: &mut RunStats) -> Outcome<Case> {
         match op {
             WOp::Write { n, .. } => fp.u64(1).u64(class_of(*n as u64)),
             WOp::WriteAll { n, .. } => fp.u64(2).u64(class_of(*n as u64)),
+            WOp::WriteSolved { alt, .. } => fp.u64(9).u64(*alt as u64),
             WOp::Seek { p } => fp.u64(3).u64(class_of(*p % 1024)).u64(*p / 1024),
             WOp::SeekEnd { d } => fp.u64(4).u64(*d as u64),
             WOp::Flush => fp.u64(5),
@@ -550,7 +586,8 @@ impl Prop for C11 {
         let len = 1 + g.usize_below(40);
         let mut wops = Vec::new();
         for _ in 0..len {
-            let op = match g.weighted(&[5, 5, 4, 1, 2, 2, 1, 2]) {
+            let op = match g.weighted(&[5, 5, 4, 1, 2, 2, 1, 2, 1]) {
+                8 => WOp::WriteSolved { n: 4 + g.usize_below(60), seed: g.next_u64(), alt: g.chance(1, 4) },
                 0 => WOp::Write { n: draw_len(&mut g), seed: g.next_u64() },
                 1 => WOp::WriteAll { n: draw_len(&mut g), seed: g.next_u64() },
                 2 => WOp::Seek { p: draw_phys(&mut g) },
@@ -561,6 +598,15 @@ impl Prop for C11 {
                 _ => WOp::Size,
             };
             wops.push(op);
+        }
+        if rc.index % 32 == 7 {
+            // an overwrite of 64 pages or more in one call, starting at a page start inside
+            // existing data, with a tail behind the last whole page
+            let page = g.below(3);
+            let n = *g.pick(&[65_279usize, 65_280, 65_281, 65_290, 66_000, 70_001]);
+            let at = g.usize_below(wops.len() + 1);
+            let big = if g.chance(1, 2) { WOp::WriteAll { n, seed: g.next_u64() } } else { WOp::Write { n, seed: g.next_u64() } };
+            wops.splice(at..at, [WOp::WriteAll { n: 3000 + g.usize_below(3000), seed: g.next_u64() }, WOp::Seek { p: page * 1024 }, big, WOp::Flush]);
         }
         let rlen = 1 + g.usize_below(25);
         let mut rops = Vec::new();
